@@ -15,7 +15,7 @@ import (
 	"go.etcd.io/bbolt/verifh/drv"
 )
 
-const c09Rule = "sequences over the exported free-list interface that respect the preconditions of the real callers (one writer at a time with txid = last committed + 1, ReleasePendingPages at writer begin, Allocate(txid,n), Free of units that are in use and were not allocated by the same transaction, writer end = commit with Write / user Rollback without allocations / failed commit = Rollback + Reload or NoSyncReload of the committed image, readers registered with the last committed txid, reopen = Read into a fresh instance of either backend). Specification oracle after EVERY operation (exact free and pending sets via the verif-tagged accessor): Allocate(n)=s!=0 => s>=2 and s..s+n-1 were all free and leave the free set; =0 => no run of n consecutive free ids existed; Free makes the unit pending for that txid (Freed true, not allocatable); a release moves a page from pending to free only if no registered reader r has alloc<=r<freeing txid (alloc unknown => r<freeing txid), and with no reader registered releases everything; Rollback and failed commit restore exactly the prior state; FreeCount/PendingCount/Count/Freed/Copyall agree with the sets; Write is decoded by an independent parser (0xFFFF count convention) and re-read by BOTH backends to the same sets. Bounded-exhaustive part: all operation sequences up to a length bound over a concretised alphabet on a small universe. Non-trivial = a successful multi-page Allocate from a fragmented free set after a release performed with >=1 reader registered. Distinct = SHA-256 of the op list."
+const c09Rule = "sequences over the exported free-list interface that respect the preconditions of the real callers (one writer at a time with txid = last committed + 1, ReleasePendingPages at writer begin, Allocate(txid,n), Free of units that are in use and were not allocated by the same transaction, writer end = commit with Write / user Rollback without allocations / failed commit = Rollback + Reload or NoSyncReload of the committed image, readers registered with the last committed txid, reopen = Read into a fresh instance of either backend). Specification oracle after EVERY operation (exact free and pending sets via the verif-tagged accessor): Allocate(n)=s!=0 => s>=2 and s..s+n-1 were all free and leave the free set; =0 => no run of n consecutive free ids existed; Free makes the unit pending for that txid (Freed true, not allocatable); a release moves a page from pending to free only if no registered reader r has alloc<=r<freeing txid (alloc unknown => r<freeing txid), and with no reader registered releases everything; Rollback and failed commit restore exactly the prior state - checked on the sets and, differentially, on a twin instance that additionally executes rolled-back / failed-and-reloaded write transactions ('ghosts') and must stay in the same state after every later operation (array backend: always; hash-map: until an Allocate picks another equally valid run); FreeCount/PendingCount/Count/Freed/Copyall agree with the sets; Write is decoded by an independent parser (0xFFFF count convention) and re-read by BOTH backends to the same sets. Bounded-exhaustive part: all operation sequences up to a length bound over a concretised alphabet on a small universe. Non-trivial = a successful multi-page Allocate from a fragmented free set after a release performed with >=1 reader registered. Distinct = SHA-256 of the op list."
 
 type flUnit struct {
 	start common.Pgid
@@ -42,6 +42,13 @@ type flSpec struct {
 	snapUnits   map[common.Pgid]int
 	snapHwm     common.Pgid
 	ops         []string
+	// twin: a second instance of the same backend that receives the same calls plus, at "ghost" ops, write
+	// transactions that are rolled back (or fail and are reloaded). A rolled-back transaction must leave no
+	// trace: from then on both instances must stay in the same state after every operation.
+	twin         fl.Interface
+	twinLive     bool
+	twinDiverged bool // hash-map backend only: an Allocate chose another (equally valid) run on the twin
+	ghosts       int
 	// statistics
 	releasedWithReader bool
 	nontrivial         bool
@@ -80,6 +87,98 @@ func newFlSpec(backend string, inUse int, freeIDs []common.Pgid) *flSpec {
 	s.f.Init(append(common.Pgids{}, ids...)) // the array backend keeps (and later mutates) the slice it is given
 	s.image = ids
 	return s
+}
+
+// enableTwin starts the rollback-transparency comparison (call directly after newFlSpec).
+func (s *flSpec) enableTwin() {
+	s.twin = newBackend(s.backend)
+	s.twin.Init(append(common.Pgids{}, s.image...))
+	s.twinLive = true
+}
+
+// mut applies a mutating call to the implementation and to the live twin.
+func (s *flSpec) mut(fn func(f fl.Interface)) {
+	fn(s.f)
+	if s.twinLive {
+		fn(s.twin)
+	}
+}
+
+// compareTwin: the twin, which has additionally seen rolled-back transactions, must be in the same state.
+func (s *flSpec) compareTwin() *drv.Violation {
+	if !s.twinLive {
+		return nil
+	}
+	f1, p1 := fl.VerifState(s.f)
+	f2, p2 := fl.VerifState(s.twin)
+	toSet := func(ids common.Pgids) map[common.Pgid]bool {
+		m := map[common.Pgid]bool{}
+		for _, id := range ids {
+			m[id] = true
+		}
+		return m
+	}
+	if d := diffSets(toSet(f1), toSet(f2)); d != "" {
+		return s.viol("a rolled-back write transaction left a trace: the free set differs between an instance that never saw it and one that did (%d ghost transactions so far): %s", s.ghosts, d)
+	}
+	for tid, ids := range p1 {
+		if d := diffSets(toSet(ids), toSet(p2[tid])); d != "" {
+			return s.viol("a rolled-back write transaction left a trace: pending pages of tx %d differ (without vs with the rolled-back transaction): %s", tid, d)
+		}
+	}
+	for tid, ids := range p2 {
+		if len(p1[tid]) == 0 && len(ids) > 0 {
+			return s.viol("a rolled-back write transaction left a trace: the instance that saw it holds pending pages %v for tx %d", ids, tid)
+		}
+	}
+	return nil
+}
+
+// ghost runs an empty write transaction on the implementation (begin = release, then user rollback) and, on
+// the twin only, a write transaction that frees units (and, when failed, allocates first) and is then rolled
+// back / reloaded from the committed image the way tx.rollback does.
+func (s *flSpec) ghost(first, count int, failed, nosync bool, allocN int) *drv.Violation {
+	if s.writer != 0 {
+		return nil
+	}
+	if v := s.beginWriter(); v != nil {
+		return v
+	}
+	if v := s.rollbackUser(); v != nil {
+		return v
+	}
+	if !s.twinLive {
+		return nil
+	}
+	s.ops = append(s.ops, fmt.Sprintf("ghost(first=%d,count=%d,failed=%v,nosync=%v,alloc=%d)", first, count, failed, nosync, allocN))
+	s.ghosts++
+	txid := s.lastTx + 1
+	var cands []common.Pgid
+	for st := range s.units {
+		cands = append(cands, st)
+	}
+	sort.Slice(cands, func(i, j int) bool { return cands[i] < cands[j] })
+	if failed && allocN > 0 {
+		s.twin.Allocate(txid, allocN)
+	}
+	for k := 0; k < count && k < len(cands); k++ {
+		st := cands[(first+k)%len(cands)] // consecutive units: adjacent pages are the interesting case
+		s.twin.Free(txid, common.NewPage(st, common.LeafPageFlag, 0, uint32(s.units[st]-1)))
+	}
+	s.twin.Rollback(txid)
+	if failed {
+		if nosync {
+			s.twin.NoSyncReload(append(common.Pgids{}, s.image...))
+		} else {
+			buf := make([]byte, 16+8*(len(s.image)+1)+8)
+			p := (*common.Page)(unsafe.Pointer(&buf[0]))
+			g := newBackend("array")
+			g.Init(append(common.Pgids{}, s.image...))
+			g.Write(p)
+			s.twin.Reload(p)
+		}
+	}
+	return s.compareTwin()
 }
 
 func cloneSet(m map[common.Pgid]bool) map[common.Pgid]bool {
@@ -243,7 +342,7 @@ func (s *flSpec) beginWriter() *drv.Violation {
 	}
 	s.ops = append(s.ops, "begin")
 	before := clonePending(s.pending)
-	s.f.ReleasePendingPages()
+	s.mut(func(f fl.Interface) { f.ReleasePendingPages() })
 	free, pend, v := s.implState()
 	if v != nil {
 		return v
@@ -303,6 +402,16 @@ func (s *flSpec) allocate(n int) *drv.Violation {
 	s.ops = append(s.ops, fmt.Sprintf("alloc%d", n))
 	frag := s.fragmented()
 	got := s.f.Allocate(s.writer, n)
+	if s.twinLive {
+		if got2 := s.twin.Allocate(s.writer, n); got2 != got {
+			if s.backend == "array" {
+				return s.viol("a rolled-back write transaction left a trace: Allocate(%d) = %d on the instance that never saw it, %d on the one that did", n, got, got2)
+			}
+			// hash-map backend: which of several suitable runs is taken is unspecified (map order); the twins
+			// are no longer comparable
+			s.twinLive, s.twinDiverged = false, true
+		}
+	}
 	if got == 0 {
 		if s.hasRun(n) {
 			return s.viol("Allocate(%d) returned 0 although the free set %v holds a run of %d consecutive ids", n, setList(s.free), n)
@@ -351,7 +460,7 @@ func (s *flSpec) freeUnit(idx int) *drv.Violation {
 	st := cands[idx%len(cands)]
 	n := s.units[st]
 	s.ops = append(s.ops, fmt.Sprintf("free%d+%d", st, n-1))
-	s.f.Free(s.writer, common.NewPage(st, common.LeafPageFlag, 0, uint32(n-1)))
+	s.mut(func(f fl.Interface) { f.Free(s.writer, common.NewPage(st, common.LeafPageFlag, 0, uint32(n-1))) })
 	delete(s.units, st)
 	if s.pending[s.writer] == nil {
 		s.pending[s.writer] = map[common.Pgid]bool{}
@@ -458,7 +567,7 @@ func (s *flSpec) rollbackUser() *drv.Violation {
 		return nil
 	}
 	s.ops = append(s.ops, "rollback")
-	s.f.Rollback(s.writer)
+	s.mut(func(f fl.Interface) { f.Rollback(s.writer) })
 	s.restoreSnap()
 	s.writer = 0
 	return s.checkObservers()
@@ -470,9 +579,9 @@ func (s *flSpec) failCommit(nosync bool) *drv.Violation {
 		return nil
 	}
 	s.ops = append(s.ops, fmt.Sprintf("failcommit(nosync=%v)", nosync))
-	s.f.Rollback(s.writer)
+	s.mut(func(f fl.Interface) { f.Rollback(s.writer) })
 	if nosync {
-		s.f.NoSyncReload(append(common.Pgids{}, s.image...))
+		s.mut(func(f fl.Interface) { f.NoSyncReload(append(common.Pgids{}, s.image...)) })
 	} else {
 		// build the committed freelist page
 		buf := make([]byte, 16+8*(len(s.image)+1)+8)
@@ -480,7 +589,7 @@ func (s *flSpec) failCommit(nosync bool) *drv.Violation {
 		g := newBackend("array")
 		g.Init(append(common.Pgids{}, s.image...))
 		g.Write(p)
-		s.f.Reload(p)
+		s.mut(func(f fl.Interface) { f.Reload(p) })
 	}
 	s.restoreSnap()
 	// specification: free = committed image minus what is pending now
@@ -502,7 +611,7 @@ func (s *flSpec) failCommit(nosync bool) *drv.Violation {
 
 func (s *flSpec) addReader() *drv.Violation {
 	s.ops = append(s.ops, fmt.Sprintf("reader+%d", s.lastTx))
-	s.f.AddReadonlyTXID(s.lastTx)
+	s.mut(func(f fl.Interface) { f.AddReadonlyTXID(s.lastTx) })
 	s.readers = append(s.readers, s.lastTx)
 	return nil
 }
@@ -514,7 +623,8 @@ func (s *flSpec) removeReader(idx int) *drv.Violation {
 	sort.Slice(s.readers, func(i, j int) bool { return s.readers[i] < s.readers[j] })
 	i := idx % len(s.readers)
 	s.ops = append(s.ops, fmt.Sprintf("reader-%d", s.readers[i]))
-	s.f.RemoveReadonlyTXID(s.readers[i])
+	rid := s.readers[i]
+	s.mut(func(f fl.Interface) { f.RemoveReadonlyTXID(rid) })
 	s.readers = append(s.readers[:i], s.readers[i+1:]...)
 	return nil
 }
@@ -533,6 +643,12 @@ func (s *flSpec) reopen(backend string) *drv.Violation {
 	s.backend = backend
 	s.f = newBackend(backend)
 	s.f.Read(p)
+	if s.twin != nil {
+		// a fresh pair: the comparison starts anew (also after a divergence by choice)
+		s.twin = newBackend(backend)
+		s.twin.Read(p)
+		s.twinLive = true
+	}
 	s.free = map[common.Pgid]bool{}
 	for _, id := range s.image {
 		s.free[id] = true
@@ -549,7 +665,17 @@ type flOp struct {
 }
 
 func (s *flSpec) do(op flOp) *drv.Violation {
+	if v := s.do1(op); v != nil {
+		return v
+	}
+	return s.compareTwin()
+}
+
+func (s *flSpec) do1(op flOp) *drv.Violation {
 	switch op.C {
+	case "ghost":
+		// A packs: first unit (low 12 bits), count (next 3 bits), failed, nosync, allocN (3 bits)
+		return s.ghost(op.A&0xfff, 1+(op.A>>12)&7, (op.A>>15)&1 == 1, (op.A>>16)&1 == 1, (op.A>>17)&7)
 	case "begin":
 		return s.beginWriter()
 	case "reader+":
@@ -578,6 +704,7 @@ type c09Doc struct {
 	Free    []uint64 `json:"free"`
 	Ops     []flOp   `json:"ops"`
 	Seq     []int    `json:"seq,omitempty"`
+	Twin    bool     `json:"twin,omitempty"`
 }
 
 // ---- random mode ----------------------------------------------------------------------------
@@ -606,7 +733,11 @@ func c09Random(rt *rapid.T, col *collector) {
 		}
 	}
 	s := newFlSpec(backend, inUse, freeIDs)
-	doc := c09Doc{Backend: backend, InUse: inUse}
+	withTwin := rapid.Bool().Draw(rt, "twin")
+	if withTwin {
+		s.enableTwin()
+	}
+	doc := c09Doc{Backend: backend, InUse: inUse, Twin: withTwin}
 	for _, id := range freeIDs {
 		doc.Free = append(doc.Free, uint64(id))
 	}
@@ -636,7 +767,9 @@ func c09Random(rt *rapid.T, col *collector) {
 			}
 			continue
 		}
-		if s.writer == 0 {
+		if s.writer == 0 && withTwin {
+			op.C = rapid.SampledFrom([]string{"begin", "begin", "begin", "reader+", "reader-", "reopen", "ghost", "ghost"}).Draw(rt, "op")
+		} else if s.writer == 0 {
 			op.C = rapid.SampledFrom([]string{"begin", "begin", "begin", "reader+", "reader-", "reopen"}).Draw(rt, "op")
 		} else {
 			op.C = rapid.SampledFrom([]string{"alloc", "alloc", "free", "free", "free", "commit", "commit", "rollback", "failcommit", "reader+", "reader-"}).Draw(rt, "wop")
@@ -652,6 +785,9 @@ func c09Random(rt *rapid.T, col *collector) {
 			op.A = rapid.IntRange(0, 1<<20).Draw(rt, "unit")
 		case "failcommit":
 			op.A = rapid.IntRange(0, 1).Draw(rt, "nosync")
+		case "ghost":
+			op.A = rapid.IntRange(0, 0xfff).Draw(rt, "gfirst") | rapid.IntRange(0, 7).Draw(rt, "gcount")<<12 | rapid.IntRange(0, 1).Draw(rt, "gfailed")<<15 |
+				rapid.IntRange(0, 1).Draw(rt, "gnosync")<<16 | rapid.IntRange(0, 4).Draw(rt, "galloc")<<17
 		}
 		doc.Ops = append(doc.Ops, op)
 		if v := s.do(op); v != nil {
@@ -665,6 +801,15 @@ func c09Random(rt *rapid.T, col *collector) {
 	if big {
 		labels["big-universe"] = 1
 	}
+	if withTwin {
+		labels["twin"] = 1
+	}
+	if s.ghosts > 0 {
+		labels["ghost-transactions"] = 1
+	}
+	if s.twinDiverged {
+		labels["twin-diverged-by-allocation-choice"] = 1
+	}
 	col.Add(s.ops, s.nontrivial, labels)
 }
 
@@ -672,6 +817,13 @@ func c09Random(rt *rapid.T, col *collector) {
 
 // c09Alphabet lists the concretised operations applicable in the current state.
 func c09Apply(s *flSpec, op int) *drv.Violation {
+	if v := c09Apply1(s, op); v != nil {
+		return v
+	}
+	return s.compareTwin()
+}
+
+func c09Apply1(s *flSpec, op int) *drv.Violation {
 	switch op {
 	case 0:
 		return s.beginWriter()
@@ -701,11 +853,15 @@ func c09Apply(s *flSpec, op int) *drv.Violation {
 		return s.removeReader(0)
 	case 13:
 		return s.removeReader(1)
+	case 14:
+		return s.ghost(0, 2, false, false, 0)
+	case 15:
+		return s.ghost(1, 1, true, false, 1)
 	}
 	return nil
 }
 
-const c09NumOps = 14
+const c09NumOps = 16
 
 func c09Enabled(s *flSpec, op int) bool {
 	switch op {
@@ -721,6 +877,8 @@ func c09Enabled(s *flSpec, op int) bool {
 		return len(s.readers) >= 1
 	case 13:
 		return len(s.readers) >= 2
+	case 14, 15:
+		return s.writer == 0
 	}
 	return false
 }
@@ -743,6 +901,7 @@ func TestC09Exhaustive(t *testing.T) {
 		rec = func() bool {
 			// execute seq from scratch
 			s := newFlSpec(backend, 4, []common.Pgid{4, 6, 7, 9})
+			s.enableTwin()
 			for _, op := range seq {
 				if !c09Enabled(s, op) {
 					return true // not a legal sequence: prune
@@ -778,7 +937,7 @@ func TestC09Exhaustive(t *testing.T) {
 	col.Count("exhaustive_sequences", total)
 	col.Count("exhaustive_depth", depth)
 	col.Count("exhaustive_complete", 1)
-	col.Sample(map[string]any{"exhaustive": fmt.Sprintf("all legal sequences of <=%d ops over 14 concretised operations, universe pages 2..9 (in use 2,3,5,8; free 4,6,7,9), <=3 readers, both backends; first-op shard %d of %d", depth, shard, shards), "sequences": total})
+	col.Sample(map[string]any{"exhaustive": fmt.Sprintf("all legal sequences of <=%d ops over 16 concretised operations (incl. two kinds of rolled-back ghost transactions on a twin instance), universe pages 2..9 (in use 2,3,5,8; free 4,6,7,9), <=3 readers, both backends; first-op shard %d of %d", depth, shard, shards), "sequences": total})
 }
 
 func atoiDef(s string, d int) int {
@@ -848,6 +1007,7 @@ func replayC09(t *testing.T, d replayDoc) *drv.Violation {
 	_ = jsonUnmarshal(d.Extra, &doc)
 	if d.Kind == "freelist-exhaustive" {
 		s := newFlSpec(doc.Backend, 4, []common.Pgid{4, 6, 7, 9})
+		s.enableTwin()
 		for _, op := range doc.Seq {
 			if v := c09Apply(s, op); v != nil {
 				return v
@@ -860,6 +1020,9 @@ func replayC09(t *testing.T, d replayDoc) *drv.Violation {
 		free = append(free, common.Pgid(id))
 	}
 	s := newFlSpec(doc.Backend, doc.InUse, free)
+	if doc.Twin {
+		s.enableTwin()
+	}
 	if v := s.checkObservers(); v != nil {
 		return v
 	}
